@@ -21,18 +21,47 @@ theorem reach_inv {s : State} (h : Reach s) : Inv s := by
   | init ch cl => constructor <;> simp [total]
   | step _ hd hs ih => exact inv_step _ ih _ hd _ _ hs
 
+theorem reach_cinv {s : State} (h : Reach s) : CInv s := by
+  induction h with
+  | init ch cl => constructor <;> simp
+  | step _ _ hs ih => exact cinv_step _ ih _ _ _ hs
+
+/-- a run from a reachable state ends in a reachable state. -/
+theorem reach_run {s : State} (hr : Reach s) : ∀ (ls : List Label) (s' : State) (os : List Out),
+    (∀ l ∈ ls, l.disciplined = true) → run s ls = some (s', os) → Reach s' := by
+  intro ls
+  induction ls generalizing s with
+  | nil => intro s' os _ h; simp only [run, Option.some.injEq, Prod.mk.injEq] at h; rw [← h.1]; exact hr
+  | cons l ls ih =>
+    intro s' os hd h
+    simp only [run] at h
+    split at h
+    · simp at h
+    · rename_i s1 o hst
+      split at h
+      · simp at h
+      · rename_i s2 os' hrun
+        simp only [Option.some.injEq, Prod.mk.injEq] at h
+        rw [← h.1]
+        exact ih (Reach.step hr (hd l List.mem_cons_self) hst) s2 os'
+          (fun l' hl' => hd l' (List.mem_cons_of_mem _ hl')) hrun
+
 /-- **A synchronous request receives the reply produced for it and never another request's reply**:
-in every reachable state, whatever `Wait` takes out of a message's reply buffer was produced by a
-responder for exactly this object *and this generation* (the request `NewMessage` last created on it). -/
-theorem reply_matches_request {s s' : State} (hr : Reach s) (o : Obj) (t : Tag)
-    (h : step s (.wait o) = some (s', .tag t)) : t = ⟨o, (s.objs o).gen⟩ := by
+in every reachable state, whatever a `Wait` — whichever ready branch of its `select` it takes — hands
+out as a reply was produced by a responder for exactly this object *and this generation* (the request
+`NewMessage` last created on it).  `Reach` ranges over all resolutions of the `select` races
+(`viaDone` of earlier `wait`/`unblock` labels), closes of the topic, queue and client included. -/
+theorem reply_matches_request {s s' : State} (hr : Reach s) (o : Obj) (b : Bool) (t : Tag)
+    (h : step s (.wait o b) = some (s', .tag t)) : t = ⟨o, (s.objs o).gen⟩ := by
   have hi := reach_inv hr
   simp only [step] at h
   split at h
-  · rename_i u hb
-    simp only [Option.some.injEq, Prod.mk.injEq, Out.tag.injEq] at h
-    rw [← h.2]; exact (hi.buf o u hb).1
   · split at h <;> simp at h
+  · split at h
+    · rename_i u hb
+      simp only [Option.some.injEq, Prod.mk.injEq, Out.tag.injEq] at h
+      rw [← h.2]; exact (hi.buf o u hb).1
+    · simp at h
 
 /-- a responder's answer always lands in the buffer of the request it was produced for
 (the object has not been recycled under it). -/
@@ -53,8 +82,8 @@ theorem reply_lands_in_own_request {s s' : State} {out : Out} (hr : Reach s) (t 
 
 /-- non-vacuity: a complete request/reply round trip, then recycling, then a second round trip on the
 same object is reachable, and both waits are enabled. -/
-example : (run {} [.new 0, .send 0 true, .recv true, .reply ⟨0, 1⟩, .wait 0, .free 0 true,
-                   .new 0, .send 0 true, .recv true, .reply ⟨0, 2⟩, .wait 0]).map (·.2) =
+example : (run {} [.new 0, .send 0 true, .recv true, .reply ⟨0, 1⟩, .wait 0 false, .free 0 true,
+                   .new 0, .send 0 true, .recv true, .reply ⟨0, 2⟩, .wait 0 false]).map (·.2) =
     some [.ok, .ok, .tag ⟨0, 1⟩, .ok, .tag ⟨0, 1⟩, .ok, .ok, .ok, .tag ⟨0, 2⟩, .ok, .tag ⟨0, 2⟩] := by decide
 
 /-- The discipline is necessary (and is exactly what the `FreeMessage` comment asks for): if a message
@@ -62,75 +91,218 @@ is freed while a responder still holds it (requester timed out), the late answer
 *next* request that recycles the object.  Replayed on the real code by the harness (`stale` scenario). -/
 theorem discipline_necessary :
     (run {} [.new 0, .send 0 true, .recv true, .timeout 0, .free 0 false,
-             .new 0, .reply ⟨0, 1⟩, .send 0 true, .wait 0]).map (·.2) =
+             .new 0, .reply ⟨0, 1⟩, .send 0 true, .wait 0 false]).map (·.2) =
       some [.ok, .ok, .tag ⟨0, 1⟩, .err "timeout", .ok, .ok, .ok, .ok, .tag ⟨0, 1⟩] := by decide
 
-/-- **Each message sent to a topic is handed to a subscriber at most once**: a `recv` removes exactly
-the delivered entry from its channel. -/
-theorem recv_consumes {s s' : State} (b : Bool) (t : Tag) (h : step s (.recv b) = some (s', .tag t)) :
-    (if b then s.high else s.low) = t :: (if b then s'.high else s'.low) := by
+/-- **A subscriber receives each message sent to its topic at most once** — trace level: along every
+run from the initial state that respects the pool discipline, of any length and under any interleaving,
+no tag (object + generation = one logical message) occurs twice among the outputs of the `recv` labels
+(`recvTags` collects them in order). -/
+theorem recv_at_most_once (ch cl : Nat) (ls : List Label) (hd : ∀ l ∈ ls, l.disciplined = true)
+    (s' : State) (os : List Out) (h : run { capHigh := ch, capLow := cl } ls = some (s', os)) :
+    (recvTags ls os).Nodup :=
+  (run_recv_nodup ls _ s' os (reach_inv (Reach.init ch cl)) hd h).1
+
+/-- the same from any reachable state (e.g. after an arbitrary prefix), and a tag received in the
+continuation was not received (nor answered, nor recycled) before. -/
+theorem recv_at_most_once_from {s : State} (hr : Reach s) (ls : List Label)
+    (hd : ∀ l ∈ ls, l.disciplined = true) (s' : State) (os : List Out) (h : run s ls = some (s', os)) :
+    (recvTags ls os).Nodup ∧ ∀ t ∈ recvTags ls os, ¬ Past s t :=
+  run_recv_nodup ls s s' os (reach_inv hr) hd h
+
+/-- **Each received message was sent**: what a `recv` hands out is the *current* request of its object
+(the generation `NewMessage` last gave it) in phase `queued` — a phase only a successful `Send`
+(`send`/`unblock` with output `ok`) establishes — and it leaves that phase for good. -/
+theorem recv_delivers_sent_request {s s' : State} (hr : Reach s) (b : Bool) (t : Tag)
+    (h : step s (.recv b) = some (s', .tag t)) :
+    (s.objs t.obj).gen = t.gen ∧ (s.objs t.obj).phase = .queued ∧ (s'.objs t.obj).phase = .held := by
+  have hp := recv_past s (reach_inv hr) b t s' h
+  refine ⟨hp.1.1, hp.1.2, ?_⟩
+  have hi' : Inv s' := reach_inv (Reach.step hr rfl h)
   simp only [step] at h
   split at h
   · simp at h
-  · split at h
-    · simp at h
-    · rename_i u rest hl
-      simp only [Option.some.injEq, Prod.mk.injEq, Out.tag.injEq] at h
-      obtain ⟨rfl, rfl⟩ := h
-      cases b <;> simpa using hl
+  · simp only [Option.some.injEq, Prod.mk.injEq, Out.tag.injEq] at h
+    obtain ⟨hs, rfl⟩ := h
+    exact (hi'.held _ (by rw [← hs]; simp)).2
 
-/-- **After the topic (client) or the whole queue is closed, every send and wait returns an error
-instead of blocking forever**: in *any* state with the topic closed, a new send returns `closed`, a
-wait is enabled (it returns the buffered reply or `closed`), and every sender that was blocked on a
-full channel — high or low — has an enabled step that returns `closed`. -/
+/-- non-vacuity: two requests received in one run, the object of the first recycled and received again
+under its next generation — three distinct tags. -/
+example : (run {} [.new 0, .send 0 true, .new 1, .send 1 false, .recv true, .recv false, .reply ⟨0, 1⟩,
+                   .wait 0 false, .free 0 true, .new 0, .send 0 true, .recv true]).map
+            (fun r => recvTags [.new 0, .send 0 true, .new 1, .send 1 false, .recv true, .recv false, .reply ⟨0, 1⟩,
+                   .wait 0 false, .free 0 true, .new 0, .send 0 true, .recv true] r.2) =
+    some [⟨0, 1⟩, ⟨1, 1⟩, ⟨0, 2⟩] := by decide
+
+/-- **After the topic (subscriber's client) or the whole queue is closed, every send and wait returns an
+error instead of blocking forever**: in *any* state with the topic closed, a new send returns `closed`,
+the `done` branch of a wait is enabled and returns `closed` (so `Wait` cannot block; Go may instead take
+a buffered reply — see `wait_after_close_returns`), and every sender that was blocked on a full channel —
+high or low — has its `done` branch enabled, returning `closed`.  This is enabledness of a ready `select`
+case in the one modelled topic, not a fairness argument. -/
 theorem close_unblocks (s : State) (hc : s.topicClosed = true) :
     (∀ o b, ∃ s', step s (.send o b) = some (s', .err "closed")) ∧
-    (∀ o, (step s (.wait o)).isSome) ∧
-    (∀ t, t ∈ s.blockedHigh → ∃ s', step s (.unblock t true) = some (s', .err "closed")) ∧
-    (∀ t, t ∈ s.blockedLow → ∃ s', step s (.unblock t false) = some (s', .err "closed")) := by
+    (∀ o, step s (.wait o true) = some (s, .err "closed")) ∧
+    (∀ t, t ∈ s.blockedHigh → ∃ s', step s (.unblock t true true) = some (s', .err "closed")) ∧
+    (∀ t, t ∈ s.blockedLow → ∃ s', step s (.unblock t false true) = some (s', .err "closed")) := by
   refine ⟨?_, ?_, ?_, ?_⟩
   · intro o b
     simp only [step, hc, Bool.or_true]
     by_cases hcc : s.clientClosed = true <;> simp [hcc]
   · intro o
-    simp only [step, hc, Bool.true_or]
-    cases (s.objs o).buf <;> simp
+    simp [step, hc]
   · intro t ht
     simp [step, hc, ht]
   · intro t ht
     simp [step, hc, ht]
 
-/-- after a close a wait can only return — with the buffered reply or with `closed`: the time-out outcome
-(and with it the unbounded block of `Wait`, which is `WaitTimeout(-1)`) is not a possible step any more. -/
-theorem wait_after_close_returns (s : State) (hc : s.topicClosed = true ∨ s.clientClosed = true) (o : Obj) :
-    step s (.timeout o) = none ∧
-    (∃ s' out, step s (.wait o) = some (s', out) ∧ (out = .err "closed" ∨ ∃ t, out = .tag t)) := by
+/-- whatever branch a blocked sender or a waiter takes after a close, it *returns*: a blocked sender gets
+`closed` or `ok` (it slipped into the orphaned channel), a waiter gets `closed` or a reply — and by
+`reply_matches_request` that reply is its own. No branch yields `blocked`. -/
+theorem after_close_outcomes (s s' : State) (out : Out) :
+    (∀ t b v, step s (.unblock t b v) = some (s', out) → out = .err "closed" ∨ out = .ok) ∧
+    (∀ o v, step s (.wait o v) = some (s', out) → out = .err "closed" ∨ ∃ t, out = .tag t) := by
+  constructor
+  · intro t b v h
+    simp only [step] at h
+    repeat' split at h
+    all_goals first
+      | (simp at h; done)
+      | (simp only [Option.some.injEq, Prod.mk.injEq] at h; simp [← h.2])
+  · intro o v h
+    simp only [step] at h
+    repeat' split at h
+    all_goals first
+      | (simp at h; done)
+      | (simp only [Option.some.injEq, Prod.mk.injEq] at h; simp [← h.2])
+
+/-- after a close of the topic, or once the requester's own client has closed its `done`, `Wait` cannot
+block: its `done` branch is enabled, returns `closed` and leaves the state (a buffered reply included)
+untouched; the only other branch takes the buffered reply. -/
+theorem wait_after_close_returns (s : State) (hc : s.topicClosed = true ∨ s.clientDone = true) (o : Obj) :
+    step s (.wait o true) = some (s, .err "closed") ∧
+    (∀ s' out, step s (.wait o false) = some (s', out) → ∃ t, (s.objs o).buf = some t ∧ out = .tag t) := by
   constructor
   · rcases hc with hc | hc <;> simp [step, hc]
-  · simp only [step]
-    cases hb : (s.objs o).buf with
-    | some t => exact ⟨_, _, rfl, Or.inr ⟨t, rfl⟩⟩
-    | none =>
-      rcases hc with hc | hc <;> simp [hc] <;> exact ⟨s, _, ⟨rfl, rfl⟩, Or.inl rfl⟩
+  · intro s' out h
+    simp only [step, Bool.false_eq_true, if_false] at h
+    split at h
+    · rename_i t hb
+      simp only [Option.some.injEq, Prod.mk.injEq] at h
+      exact ⟨t, hb, h.2.symm⟩
+    · simp at h
 
-/-- non-vacuity: a request that was never answered, after the whole queue is closed: wait returns `closed`. -/
-example : (run {} [.new 0, .send 0 true, .closeQueue, .wait 0]).map (·.2) =
+/-- non-vacuity: a request that was never answered, after the whole queue is closed: wait returns `closed`;
+and the race the model leaves open: with a reply buffered at the close, both branches are enabled, and
+after the `done` branch the reply is still there for a second wait. -/
+example : (run {} [.new 0, .send 0 true, .closeQueue, .wait 0 true]).map (·.2) =
     some [.ok, .ok, .ok, .err "closed"] := by decide
+example : (run {} [.new 0, .send 0 true, .recv true, .reply ⟨0, 1⟩, .closeTopic, .wait 0 true, .wait 0 false]).map (·.2) =
+    some [.ok, .ok, .tag ⟨0, 1⟩, .ok, .ok, .err "closed", .tag ⟨0, 1⟩] := by decide
 
 /-- `closeTopic` and `closeQueue` do close the topic, from every state. -/
 theorem close_sets_closed (s s' : State) (out : Out) (l : Label) (hl : l = .closeTopic ∨ l = .closeQueue)
     (h : step s l = some (s', out)) : s'.topicClosed = true := by
   rcases hl with rfl | rfl <;> simp only [step, Option.some.injEq, Prod.mk.injEq] at h <;> rw [← h.1]
 
-/-- after the requester's own client is closed, its sends fail at once. -/
-theorem send_after_client_close (s : State) (hc : s.clientClosed = true) (o : Obj) (b : Bool) :
-    step s (.send o b) = some (s, .err "closed") := by
-  simp [step, hc]
+/-- **After the requester's own client is closed** (`isClosed = 1`), its sends fail at once, and — in every
+reachable state — its `done` channel is closed too, so its waits return as in `wait_after_close_returns`. -/
+theorem send_after_client_close {s : State} (hr : Reach s) (hc : s.clientClosed = true) (o : Obj) (b : Bool) :
+    step s (.send o b) = some (s, .err "closed") ∧ s.clientDone = true ∧
+    step s (.wait o true) = some (s, .err "closed") := by
+  have hd : s.clientDone = true := by
+    cases h : s.clientDone
+    · have := ((reach_cinv hr).notDone h).2; simp [hc] at this
+    · rfl
+  simp [step, hc, hd]
+
+/-- a `Close` of the requester's client that has subscribed a topic runs to completion when no other `Close`
+interferes, and then the client is closed; a `Close` of a client without a topic returns at once and changes
+nothing (`client.topic == nil`). -/
+theorem closeclient_closes (s : State) (h0 : s.closersA = 0 ∧ s.closersB = 0) (hs : s.reqSub = true)
+    (hc : s.clientDone = false ∧ s.clientClosed = false) :
+    ∃ s', (run s [.closeEnter, .closeDone, .closeFinish]).map (·.2) = some [.blocked, .blocked, .ok] ∧
+      (run s [.closeEnter, .closeDone, .closeFinish]).map (·.1) = some s' ∧
+      s'.clientClosed = true ∧ s'.clientDone = true ∧ s'.objs = s.objs ∧ s'.topicClosed = s.topicClosed := by
+  simp [run, step, h0.1, h0.2, hs, hc.1, hc.2]
+
+theorem closeclient_without_topic_is_noop (s : State) (hs : s.reqSub = false) :
+    step s .closeEnter = some (s, .ok) := by
+  simp [step, hs]
+
+/-- non-vacuity (reachability of `clientClosed`): the requester subscribes, sends a request that is never
+answered, closes its client; its wait returns `closed`, a new request's send returns `closed`. -/
+example : (run {} [.subReq, .new 0, .send 0 true, .closeEnter, .closeDone, .closeFinish, .wait 0 true,
+                   .new 1, .send 1 true]).map (·.2) =
+    some [.ok, .ok, .ok, .blocked, .blocked, .ok, .err "closed", .ok, .err "closed"] := by decide
+example : ∃ s, Reach s ∧ s.clientClosed = true ∧ s.topicClosed = false :=
+  ⟨_, Reach.step (Reach.step (Reach.step (Reach.step (Reach.init 64 40960)
+      (l := .subReq) rfl rfl) (l := .closeEnter) rfl rfl) (l := .closeDone) rfl rfl) (l := .closeFinish) rfl rfl,
+    rfl, rfl⟩
 
 /-- non-vacuity of `close_unblocks`: a state with a sender blocked on the full low channel is reachable,
 and closing unblocks it with an error. -/
 example : (run { capLow := 1 } [.new 0, .send 0 false, .new 1, .send 1 false, .closeTopic,
-                                .unblock ⟨1, 1⟩ false]).map (·.2) =
+                                .unblock ⟨1, 1⟩ false true]).map (·.2) =
     some [.ok, .ok, .ok, .blocked, .ok, .err "closed"] := by decide
+
+/-! ### "… or crashing" -/
+
+/-- the full claim: no step of any reachable state panics. -/
+def NeverPanics : Prop := ∀ (s s' : State) (l : Label), Reach s → step s l ≠ some (s', .panic)
+
+/-- FALSE of the code: two overlapping `Close` calls of one subscribed client both pass the entry check and
+the second `close(client.done)` panics ("close of closed channel").  Replayed on the real code by the
+harness (`doubleClose`), finding `C36|client.Close|panic-on-concurrent-close`. -/
+theorem never_panics_full_false : ¬ NeverPanics := by
+  intro h
+  have hr : Reach ({ reqSub := true, closersA := 1, closersB := 1, clientDone := true, closeOverlap := true } : State) :=
+    Reach.step (Reach.step (Reach.step (Reach.step (Reach.init 64 40960)
+      (l := .subReq) rfl rfl) (l := .closeEnter) rfl rfl) (l := .closeEnter) rfl rfl) (l := .closeDone) rfl rfl
+  exact h _ _ .closeDone hr rfl
+
+/-- the witness as a run. -/
+example : (run {} [.subReq, .closeEnter, .closeEnter, .closeDone, .closeDone]).map (·.2) =
+    some [.ok, .blocked, .blocked, .blocked, .panic] := by decide
+
+/-- **Partial**: as long as no two `Close` calls of the requester's client have overlapped (hypothesis
+`closeOverlap = false`: every `Close` began while none was in flight), no label — send, wait, unblock, close,
+… — panics in any reachable state. (`close(recv)` never panics at all: `close_recv_never_panics`.) -/
+theorem never_panics_partial {s : State} (hr : Reach s) (hser : s.closeOverlap = false) (l : Label) (s' : State) :
+    step s l ≠ some (s', .panic) := by
+  intro h
+  have hc := reach_cinv hr
+  rcases panic_only_close s s' l h with rfl | rfl
+  · simp only [step] at h
+    split at h
+    · simp at h
+    · rename_i a ha
+      obtain ⟨h1, h2, _⟩ := hc.serial hser
+      have hd : s.clientDone = false := h2 (by omega)
+      simp [hd] at h
+  · simp only [step] at h
+    split at h
+    · simp at h
+    · rename_i b hb
+      have : s.closersB = 1 := by have := hc.bLe; omega
+      simp [hc.bOpen this] at h
+
+/-- `close(client.recv)` is executed at most once, overlapping `Close` calls or not. -/
+theorem close_recv_never_panics {s : State} (hr : Reach s) (s' : State) :
+    step s .closeFinish ≠ some (s', .panic) := by
+  intro h
+  have hc := reach_cinv hr
+  simp only [step] at h
+  split at h
+  · simp at h
+  · rename_i b hb
+    have : s.closersB = 1 := by have := hc.bLe; omega
+    simp [hc.bOpen this] at h
+
+/-- non-vacuity of the partial: a serial history with two complete `Close` calls (the second returns at
+once) keeps `closeOverlap = false`. -/
+example : (run {} [.subReq, .closeEnter, .closeDone, .closeFinish, .closeEnter]).map
+    (fun r => (r.2, r.1.closeOverlap, r.1.clientClosed)) =
+    some ([.ok, .blocked, .blocked, .ok, .ok], false, true) := by decide
 
 end C36
